@@ -18,6 +18,14 @@ package netpoll
 //	k     = entries joined by '.', consumed one per sendmsg on the connection's descriptor (the flusher's sendmsg in
 //	        connection.flush - call site renamed to verifSendmsg by tools/instrument - and the poller's iosend alike):
 //	        <m> accept at most m bytes (0 = EAGAIN), a = accept everything; after the script: a.
+//	        z (last entry) = from here on the socket buffer is FULL and the peer does not drain it: every sendmsg answers
+//	        EAGAIN and no write event is reported any more (epoll does not report EPOLLOUT for a full socket).  Only data,
+//	        a close or the write timer can end a Flush then; scenarios with z have a closer.
+//	inh   = 1: the flusher's calls are made INSIDE the OnRequest handler: the real connection.onProcess is called (it takes
+//	        the `processing` lock), its task - run through the custom runner as actor `flusher` - finds one byte of input and
+//	        calls the handler, which consumes the input and runs the script; afterwards the task's own tail runs (status
+//	        check, closeCallback or unlock(processing) + double checks).  A Close() from a closer meanwhile cannot take
+//	        `processing`: it returns without running the callbacks and relies on the task.
 //	        Accepted bytes are really sent on the socketpair (the peer's receive count is checked at the end).
 //	ev    = h: the peer closes (hang-up through the poller transcription)
 //	after = 0 (default): the flusher stops its script after the first call that returned ErrWriteTimeout - generated
@@ -37,6 +45,7 @@ package netpoll
 //	K <actor> <site> sendmsg <offered> <accepted|-1> <ok|EAGAIN|…>
 
 import (
+	"context"
 	"fmt"
 	"strconv"
 	"strings"
@@ -54,6 +63,7 @@ type vsFlScn struct {
 	closers int
 	f2      int
 	after   bool
+	inh     bool
 }
 
 func vsParseFlScn(spec string) (vsFlScn, error) {
@@ -87,6 +97,8 @@ func vsParseFlScn(spec string) (vsFlScn, error) {
 				for _, t := range strings.Split(v, ".") {
 					if t == "a" {
 						sc.kern = append(sc.kern, -1)
+					} else if t == "z" {
+						sc.kern = append(sc.kern, -2)
 					} else {
 						n, err := strconv.Atoi(t)
 						if err != nil || n < 0 {
@@ -106,6 +118,8 @@ func vsParseFlScn(spec string) (vsFlScn, error) {
 			sc.f2, _ = strconv.Atoi(v)
 		case "after":
 			sc.after = v == "1"
+		case "inh":
+			sc.inh = v == "1"
 		default:
 			return sc, fmt.Errorf("unknown scenario key %q", k)
 		}
@@ -135,7 +149,11 @@ func (r *vsFlRun) kernel(a *vsActor, site string, fd int, bs [][]byte, ivs []sys
 	if r.kpos < len(r.sc.kern) {
 		limit = r.sc.kern[r.kpos]
 	}
-	r.kpos++
+	if limit == -2 {
+		limit = 0 // full for ever: stay on this entry
+	} else {
+		r.kpos++
+	}
 	if a.name == "flusher" {
 		r.f1Sent = true
 	}
@@ -209,6 +227,11 @@ func (r *vsFlRun) handleWrite(op *FDOperator) (hup bool) {
 	}
 	op.done()
 	return false
+}
+
+// full: the scripted kernel has reached its `z` entry (socket buffer full for good: no write event is reported)
+func (r *vsFlRun) full() bool {
+	return r.kpos < len(r.sc.kern) && r.sc.kern[r.kpos] == -2
 }
 
 func (r *vsFlRun) outLen() int {
@@ -290,7 +313,7 @@ func vsFlushExec(sc vsFlScn, ch vsChooser) (string, *vsSched) {
 	}
 	s.kernel = r.kernel
 	e.fp.ctlPoint = true
-	s.spawn("flusher", "flusher", false, nil, func() {
+	script := func() {
 		for i, cl := range sc.calls {
 			s.point("flusher.call")
 			if r.flushCall(i, cl) == "wtimeout" && !sc.after {
@@ -298,7 +321,29 @@ func vsFlushExec(sc vsFlScn, ch vsChooser) (string, *vsSched) {
 				break
 			}
 		}
-	})
+	}
+	if sc.inh {
+		// the REAL onProcess (called from the set-up goroutine: the hooks pass through) takes `processing` and hands its task
+		// to the runner, which makes it the actor `flusher`
+		SetRunner(func(ctx context.Context, f func()) { s.spawn("flusher", "flusher", false, nil, f) })
+		if b := c.inputBuffer.book(1, 1); len(b) > 0 {
+			c.inputBuffer.bookAck(1)
+		}
+		handler := func(ctx context.Context, conn Connection) error {
+			rd := conn.Reader()
+			rd.Skip(rd.Len())
+			rd.Release()
+			s.ghost("handler-enter")
+			script()
+			s.ghost("handler-ret")
+			return nil
+		}
+		if !c.onProcess(nil, handler) {
+			s.line("G env onProcess-refused")
+		}
+	} else {
+		s.spawn("flusher", "flusher", false, nil, script)
+	}
 	if sc.f2 > 0 {
 		guard2 := func() bool { return r.f1Sent && r.f2left > 0 }
 		a := s.spawn("flusher2", "flusher2", true, guard2, func() {
@@ -314,7 +359,7 @@ func vsFlushExec(sc vsFlScn, ch vsChooser) (string, *vsSched) {
 		})
 		a.atomicMode = true
 	}
-	guardW := func() bool { return e.fp.registered && e.fp.interestW && !e.fp.deleted && e.fp.frees == 0 }
+	guardW := func() bool { return e.fp.registered && e.fp.interestW && !e.fp.deleted && e.fp.frees == 0 && !r.full() }
 	s.spawn("wpoller", "wpoller", true, guardW, func() {
 		for i := 0; i < 64; i++ {
 			// the event was fetched while the descriptor had EPOLLOUT interest (the guard held when this step was chosen)
